@@ -431,6 +431,9 @@ def annotate_closures(body, closures, unit):
             raise LostAnchor('closure %d of %s has parameters |%s|, contract written for |%s|' % (k + 1, unit, params, c['params']))
         src = body[bs:be]
         inner = src if src.lstrip().startswith('{') else '{ ' + src.strip() + ' }'
+        if c.get('bind'):
+            # R11b: closure parameter PATTERNS (tuples, `_`) are not accepted by Verus: the typed parameter gets a name and the pattern is bound by a `let` in front of the body
+            inner = '{ ' + c['bind'] + ' ' + inner + ' }'
         new = '|%s| -> (ret: %s)%s%s %s' % (c['typed'], c['ret'], (' requires ' + c['requires']) if c.get('requires') else '', (' ensures ' + c['ensures']) if c.get('ensures') else '', inner)
         body = body[:st] + new + body[be:]
     return body
